@@ -51,6 +51,10 @@ class ConditionalIndependentBernoulli(Distribution):
         assert logits.shape == inputs.shape
 
         # Compute log prob.
+        if not inputs.is_floating_point():
+            # Binary data stored as bytes / integers / booleans: negating a uint8 wraps around
+            # (-1 becomes 255) and a bool cannot be negated at all.
+            inputs = inputs.to(logits.dtype)
         log_prob = -inputs * F.softplus(-logits) - (1.0 - inputs) * F.softplus(logits)
         log_prob = torchutils.sum_except_batch(log_prob, num_batch_dims=1)
         return log_prob
